@@ -31,6 +31,7 @@ TAGS = {
     15: 'a non-reentrant recursive request entered instead of raising',
     16: 'bookkeeping not empty after every thread has finished',
     202: 'guard: the thread programs lock the two files in inconsistent order',
+    203: 'guard: two upgraders pending at the same time',
     21: 'lost wake-up: a waiter whose conflicting holders have all released was not notified and no thread can move',
     22: 'deadlock: no thread can move',
     23: 'step bound reached',
@@ -735,9 +736,12 @@ def classify(ctx, spec, tags, obs):
         # two files locked in inconsistent order by the thread programs: lock ordering is the caller's duty (module docstring)
         ctx.coverage['unordered_two_path_deadlocks'] = ctx.coverage.get('unordered_two_path_deadlocks', 0) + 1
         return 'ok'
+    # thread level: a deadlock is excused only when two upgraders were pending at once (g1 false, tag 203) -- a single
+    # upgrader must make progress (deadlock_free_single_upgrader); path level: the no-upgrade guard (tag 201)
+    gtag = 203 if spec.get('level', 'thread') == 'thread' else 201
     for t in oracle:
         fid = EXCUSED.get(t)
-        if fid and not corr and 201 in tags and ctx.open_finding(fid):
+        if fid and not corr and gtag in tags and ctx.open_finding(fid):
             kh = ctx.coverage.setdefault('known_hits', {})
             kh[fid] = kh.get(fid, 0) + 1
             if status == 'ok':
@@ -891,7 +895,7 @@ def finding_probes(ctx):
             continue
         verdicts, obss, _ = run_specs(ctx, [f['witness']], 'finding-' + f['id'], quiet=True)
         tags = set(verdicts[0])
-        if f['expect_tag'] in tags and not (tags & set(CORR)):
+        if f['expect_tag'] in tags and not (tags & set(CORR)) and (203 in tags or f['witness'].get('level', 'thread') != 'thread'):
             ctx.known(f['id'])
         else:
             ctx.notes.append(f"finding_not_reproduced {f['id']} (tags {sorted(tags)})")
@@ -1315,12 +1319,12 @@ def run(ctx):
     specs = [json.loads(p.read_text()) for p in reg]
     specs = [s.get('spec', s) for s in specs]
     nreg = len(specs)
-    nt, nc, npth, npc = (500, 150, 150, 60) if quick else (16000, 5000, 4000, 1500)
+    nt, nc, npth, npc = (500, 150, 150, 60) if quick else (14000, 4000, 3500, 1200)
     specs += [gen_thread_spec(ctx.rng) for _ in range(nt)]
     specs += [gen_contention_spec(ctx.rng, 'thread') for _ in range(nc)]
     specs += [gen_path_spec(ctx.rng) for _ in range(npth)]
     specs += [gen_contention_spec(ctx.rng, 'path') for _ in range(npc)]
-    specs += [gen_path2_spec(ctx.rng) for _ in range(50 if quick else 1500)]
+    specs += [gen_path2_spec(ctx.rng) for _ in range(50 if quick else 300)]
     k = max(1, len(specs) // (jobs * 4))
     tasks = [('run', specs[i:i + k], None) for i in range(0, len(specs), k)]
     bases = exhaustive_bases(ctx.rng, ctx.tier)
@@ -1394,6 +1398,6 @@ def replay(ctx, rep):
     print('spec', json.dumps(spec))
     print('effective schedule', obss[0]['effective'], 'final', obss[0]['final'], 'crashes', obss[0]['crashes'])
     print('tags', tags, [TAGS.get(t, t) for t in tags])
-    excused = [t for t in tags if t in EXCUSED and 201 in tags and not (set(tags) & set(CORR))]
+    excused = [t for t in tags if t in EXCUSED and (203 if spec.get('level', 'thread') == 'thread' else 201) in tags and not (set(tags) & set(CORR))]
     bad = [t for t in tags if (t in CORR or t in ORACLE) and t not in excused]
     return 1 if bad else 0
